@@ -118,6 +118,8 @@ class Prop(core.Prop):
                     # the same coordinate stored as 32-bit integers / 32-bit floats; queries stay float64
                     yield {'coord': c, 'rep': rep, 'ctype': 'i'}
                     yield {'coord': c, 'rep': rep, 'ctype': 'f'}
+                    # unsigned storage (level numbers, category codes): differences must not wrap around
+                    yield {'coord': c, 'rep': rep, 'ctype': 'B'}
         for unit in ('hours', 'days'):
             for desc in (False, True):
                 for tzkind in ('utc', 'naive', '+0530', '-0500'):
